@@ -76,6 +76,8 @@ func init() {
 		add(prop, variant{Name: "benign-border-loop-from-row-one", File: fitaff, Find: borderFind, Replace: borderRepl, More: []edit{{fitaffq, borderFind, borderRepl}}})
 	}
 	add("C10",
+		variant{Name: "reported-position-one-early", File: kmer, Find: "\tfor position := basePosition - ki.k + 1; basePosition < end; position++ {", Replace: "\tfor position := basePosition - ki.k; basePosition < end; position++ {", Rule: "windowpos", Key: "kmerindex.(*Index).ForEachKmerOf/reported-position"},
+		variant{Name: "benign-position-init-reordered", File: kmer, Find: "\tfor position := basePosition - ki.k + 1; basePosition < end; position++ {", Replace: "\tfor position := 1 + basePosition - ki.k; basePosition < end; position++ {"},
 		variant{Name: "benign-gc-popcount-full-mask", File: kmer,
 			Find:    "\tgc := 0\n\tfor i := k - 1; i >= 0; i, kmer = i-1, kmer>>2 {\n\t\tgc += int((kmer & 1) ^ ((kmer & 2) >> 1))\n\t}\n",
 			Replace: "\tgc := 0\n\tfor x := uint32((kmer ^ kmer>>1) & 0x55555555); x != 0; x &= x - 1 {\n\t\tgc++\n\t}\n"},
@@ -96,7 +98,7 @@ func init() {
 			Replace: "\t\t\tdefault:\n\t\t\t\tif err == io.EOF {\n\t\t\t\t\terr = nil\n\t\t\t\t}\n\t\t\t\tlow.file.Close()\n\t\t\t\tif m.AutoClear {\n\t\t\t\t\tos.Remove(low.file.Name())\n\t\t\t\t}\n\t\t\t}\n"},
 	)
 	add("C14",
-		variant{Name: "benign-tube-end-diagonal-rewritten", File: filt, Find: "\tdiagIndex := f.diagIndex(f.target.Len()-1, q-1)\n\ttubeIndex := f.tubeIndex(diagIndex)\n\ttube := &f.tubes[tubeIndex%cap(f.tubes)]\n\n\tif tube.Count >= f.minKmersPerHit {\n\t\terr := f.addHit(tubeIndex, tube.QLo, tube.QHi)\n\t\tif err != nil {\n\t\t\treturn err\n\t\t}\n\t}\n\n\ttube.Count = 0\n", Replace: "\tdiagIndex := f.diagIndex(f.target.Len()-1, q) - 1\n\ttubeIndex := f.tubeIndex(diagIndex)\n\ttube := &f.tubes[tubeIndex%cap(f.tubes)]\n\n\tif tube.Count >= f.minKmersPerHit {\n\t\terr := f.addHit(tubeIndex, tube.QLo, tube.QHi)\n\t\tif err != nil {\n\t\t\treturn err\n\t\t}\n\t}\n\n\ttube.Count = 0\n"},
+		variant{Name: "benign-tube-end-diagonal-rewritten", File: filt, Find: "\tdiagIndex := f.diagIndex(f.target.Len()-1, q-1) - f.maxError\n", Replace: "\tdiagIndex := f.diagIndex(f.target.Len()-1, q) - f.maxError - 1\n"},
 		variant{Name: "benign-kmer-distance-rearranged", File: filt, Find: "\tif q-tube.QHi > f.maxKmerDist {\n", Replace: "\tif q > tube.QHi+f.maxKmerDist {\n"},
 		variant{Name: "benign-kmer-distance-shifted-bound", File: filt, Find: "\tif q-tube.QHi > f.maxKmerDist {\n", Replace: "\tif q-tube.QHi >= f.maxKmerDist {\n", More: []edit{{filt, "\tf.maxKmerDist = f.minMatch - f.k\n", "\tf.maxKmerDist = f.minMatch - f.k + 1\n"}}},
 	)
@@ -104,6 +106,9 @@ func init() {
 		variant{Name: "benign-duplicate-test-disjunction", File: dpal, Find: "\t\t\t\tif segs[j].Abpos != segs[i].Abpos {\n\t\t\t\t\tbreak\n\t\t\t\t}\n\t\t\t\tif segs[j].Bbpos != segs[i].Bbpos {\n\t\t\t\t\tbreak\n\t\t\t\t}\n", Replace: "\t\t\t\tif segs[j].Abpos != segs[i].Abpos || segs[j].Bbpos != segs[i].Bbpos {\n\t\t\t\t\tbreak\n\t\t\t\t}\n"},
 	)
 	add("C18",
+		variant{Name: "solexa-probability-lookup-shifted", File: "alphabet/letters.go", Find: "func (qs Qsolexa) ProbE() float64 { return solexaETable[int(qs)+128] }", Replace: "func (qs Qsolexa) ProbE() float64 { return solexaETable[int(qs)+127] }", Rule: "tableshift", Key: "alphabet.solexaETable/shift"},
+		variant{Name: "solexa-phred-fill-index-shifted", File: "alphabet/letters.go", Find: "\t\tif Q > 254 {\n\t\t\tQ = 254\n\t\t}\n\t\tt[q+1] = Q\n", Replace: "\t\tif Q > 254 {\n\t\t\tQ = 254\n\t\t}\n\t\tt[q] = Q\n", Rule: "tableshift", Key: "alphabet.solexaPhredTable/shift"},
+		variant{Name: "benign-solexa-etable-score-variable", File: "alphabet/letters.go", Find: "\t\tpq := math.Pow(10, -(float64(q-127) / 10))\n\t\tt[q+1] = pq / (1 + pq)\n", Replace: "\t\tqs := q - 127\n\t\tpq := math.Pow(10, -(float64(qs) / 10))\n\t\tt[qs+128] = pq / (1 + pq)\n"},
 		variant{Name: "benign-ephred-rounding-in-one-expression", File: "alphabet/letters.go", Find: "\tQ := -10 * math.Log10(p)\n\tQ += 0.5\n\tif Q > 254 {", Replace: "\tQ := -10*math.Log10(p) + 0.5\n\tif Q > 254 {"},
 	)
 	add("C19",
